@@ -1263,6 +1263,22 @@ func (x *Exec) evalBuiltinSpec(ce *CEnv, name string, args []Expr) (*Val, bool) 
 		k := "G_" + id.Name
 		x.registerGhost(k)
 		return &Val{Typ: intT, T: x.getHeap(ce.st, k)}, true
+	case "same":
+		// same(a, b): structural (bit-for-bit) equality, unlike Go's == on floats
+		a := x.eval(ce, args[0])
+		c := x.eval(ce, args[1])
+		a, c = x.unify(a, c)
+		return &Val{Typ: boolT, T: x.b.Eq(x.asTerm(a), x.asTerm(c))}, true
+	case "gsel":
+		// gsel(name, i): element i of the ghost integer array GA_name
+		id, ok := args[0].(*EIdent)
+		if !ok {
+			cfail("gsel(name, index)")
+		}
+		k := "GA_" + id.Name
+		x.registerGhost(k)
+		idx := x.coerce(x.eval(ce, args[1]), intT)
+		return &Val{Typ: intT, T: x.sel(x.getHeap(ce.st, k), idx.T, "Int")}, true
 	case "asiface":
 		// asiface(p): the interface value holding pointer p (dynamic type = p's static type)
 		v := x.eval(ce, args[0])
@@ -1287,6 +1303,9 @@ func (x *Exec) evalBuiltinSpec(ce *CEnv, name string, args []Expr) (*Val, bool) 
 			return &Val{Typ: t, T: ref}, true
 		}
 		so := x.so.SortOf(t)
+		if ref.Op == "box_"+smt.Sanitize(so) && len(ref.Args) == 1 {
+			return &Val{Typ: t, T: ref.Args[0]}, true
+		}
 		x.declareUF("unbox_"+smt.Sanitize(so), []string{"Int"}, so)
 		return &Val{Typ: t, T: x.b.App("unbox_"+smt.Sanitize(so), so, ref)}, true
 	case "dyntype":
@@ -1319,7 +1338,7 @@ func (x *Exec) evalQuant(ce *CEnv, kind string, args []Expr) *Val {
 		body := x.eval(ce.withBound(id.Name, &Val{Typ: intT, T: bv}), args[3])
 		rng := x.b.And(x.b.Cmp("<=", lo.T, bv), x.b.Cmp("<", bv, hi.T))
 		// constant small ranges are expanded
-		if lo.T.IntV != nil && hi.T.IntV != nil && hi.T.IntV.IsInt64() && lo.T.IntV.IsInt64() && hi.T.IntV.Int64()-lo.T.IntV.Int64() <= 16 {
+		if lo.T.IntV != nil && hi.T.IntV != nil && hi.T.IntV.IsInt64() && lo.T.IntV.IsInt64() && hi.T.IntV.Int64()-lo.T.IntV.Int64() <= 64 {
 			var parts []*smt.Term
 			for k := lo.T.IntV.Int64(); k < hi.T.IntV.Int64(); k++ {
 				b := x.eval(ce.withBound(id.Name, &Val{Typ: intT, T: x.b.Int(k)}), args[3])
